@@ -333,6 +333,7 @@ func runC14(p *eng.Prog, r *eng.Report, tier string) {
 	c := &cx{p, r, tier}
 	c14Stanza(c)
 	stanzaIsTable(c, "C14.9")
+	c14DispatchThroughTable(c, "C14.12")
 	jidCore(c, "C14.11")
 	decodedStanzaNotRewritten(c, "C14.10", []string{"mux.(*ServeMux).iqRouter", "mux.(*ServeMux).msgRouter", "mux.(*ServeMux).presenceRouter"}, 3)
 	c14Handler(c)
@@ -1037,4 +1038,29 @@ func c14ReplayBuffer(c *cx, rid string) {
 		}
 	}
 	c.r.Floor(rid, "bufReader literals", nlit, 1)
+}
+
+// c14DispatchThroughTable (C14.12): ServeMux.HandleXMPP asks ServeMux.Handler -
+// whose lookup order C14.2 decides - for every element, stanzas included, and
+// calls what it returns: each return of HandleXMPP is HandleXMPP of the handler
+// obtained from recv.Handler(start.Name). A "fast path" for stanzas in front
+// of it bypasses the top-level patterns (a namespace-only pattern for the
+// stanza namespace is the most specific match for a stanza).
+func c14DispatchThroughTable(c *cx, id string) {
+	f := c.fn(id, "mux", "(*ServeMux).HandleXMPP")
+	if f == nil {
+		return
+	}
+	g := f.Graph()
+	n := 0
+	for _, rs := range g.Returns {
+		n++
+		rp, _ := g.Where(rs)
+		got := ""
+		if res := retResults(f, rs); len(res) == 1 {
+			got = f.Norm(res[0], &rp)
+		}
+		c.r.Check(id, f, "dispatch", "K: every return of ServeMux.HandleXMPP is the HandleXMPP of the handler that ServeMux.Handler(start.Name) returned", rs.Pos(), eng.Glob("*HandleXMPP[mux.ServeMux.Handler[recv](p1.Name)#0](p0,p1)", got), "returns "+got)
+	}
+	c.r.Floor(id, "returns of ServeMux.HandleXMPP", n, 1)
 }
